@@ -9,7 +9,9 @@ ODD_AGENTS = ['bob ', ' zed', '  ', 'al ice', '\tt']      # identities are exact
 TEXTS = ['Fix login', 'Write docs', 'a', 'Deploy v2', 'Refactor "core"', 'back\\slash', 'tab\there', 'multi\nline',
          'héllo wörld', '日本語のタイトル', 'emoji \U0001F600 ok', '<b>&amp;</b>',
          'u2028 sep', '  padded  ', 'é combining', '# heading', 'x' * 90, 'ctl\x01\x1f', ' nbsp ',
-         "it's", 'quote"s', '{"json":1}', '   ', '']
+         "it's", 'quote"s', '{"json":1}', '   ', '',
+         # texts without a single visible glyph are still texts (zero-width / format / control / private-use only)
+         '\u200b', '\u2060\ufeff', '\x01\x02', '\ue000', '\U000e0001\u200d']
 BODIES = ['', 'Some details.', 'line1\nline2\n', '# Title\n\nfirst real line\nrest', '\n\n', 'bödy \U0001F680',
           'tab\t\tend', ' lead', 'x' * 300, '   ']
 
@@ -463,6 +465,10 @@ class History:
                     if cur in adj:
                         cur = rng.choice(adj[cur])
                 if cur != start:
+                    if rng.random() < 0.4:
+                        # the other direction: start already depends on cur (directly or through other items); the
+                        # explicit edge is redundant for readiness but must still be recorded as asked and reported
+                        return Req(k='seq', ids=[cur, start])
                     return Req(k='seq', ids=[start, cur])      # cur would depend on start, but start already reaches cur
             if len(pool) >= n and rng.random() < 0.7:
                 ids = rng.sample(pool, n)                      # distinct live items of one kind (may still close a cycle)
